@@ -218,7 +218,7 @@ func (e *c07) Impl(c Case) []string {
 	for i, l := range c.Lines {
 		out[i] = guard(func() string {
 			t := strings.Split(l, " ")
-			if len(t) < 5 || t[0] != "err" || t[1] != "hop" {
+			if len(t) < 5 || t[0] != "err" || (t[1] != "hop" && t[1] != "hopbig") {
 				return "bad-op"
 			}
 			n, _ := strconv.Atoi(t[2])
@@ -297,6 +297,30 @@ func (*c07) Gen(rng *RNG, tier string) []Case {
 	}
 	for i := 0; i < n; i++ {
 		add(pick(rng, c07Carriers), c07ErrExpr(rng))
+	}
+	// error bodies around the client's size limit (8 KiB): up to and including the limit the error must
+	// keep its identity; beyond it the client cannot decode the body (recorded finding F24), and the
+	// model has no opinion ("hopbig" lines)
+	for _, target := range []int{8189, 8190, 8191, 8192, 8193, 8200, 9000} {
+		for _, std := range []ociregistry.Error{ociregistry.ErrDenied, ociregistry.ErrBlobUnknown} {
+			base, _ := ociregistry.MarshalError(ociregistry.NewError("m", std.Code(), nil))
+			msg := strings.Repeat("m", target-len(base)+1)
+			body, _ := ociregistry.MarshalError(ociregistry.NewError(msg, std.Code(), nil))
+			verb := "hop"
+			if len(body) > 8192 {
+				verb = "hopbig"
+			}
+			expr := "W " + tok(std.Code()) + " " + tok(msg) + " -"
+			var ls []string
+			for h := 0; h <= 3; h++ {
+				v := verb
+				if h == 0 {
+					v = "hop"
+				}
+				ls = append(ls, fmt.Sprintf("err %s %d %s %s", v, h, pick(rng, []string{"GetBlob", "DeleteTag", "PushManifest", "Tags"}), expr))
+			}
+			cases = append(cases, Case{Tag: fmt.Sprintf("body-%d", len(body)), Lines: ls})
+		}
 	}
 	return cases
 }
@@ -419,6 +443,10 @@ func (*c07) Oracle(c Case, impl []string) []Failure {
 			continue
 		}
 		if !o.hasCode || o.code != wantCode {
+			if strings.HasPrefix(c.Tag, "body-") && c.Tag > "body-8192" && len(c.Tag) == len("body-8192") || strings.HasPrefix(c.Tag, "body-9") {
+				fail("err-body-over-8KiB", "hop_code", wantCode) // F24: the client refuses error bodies over errorBodySizeLimit
+				continue
+			}
 			fail("err-code", "hop_code", wantCode)
 		}
 		if !jsonEqual(o.detail, orig.detail) {
